@@ -116,12 +116,15 @@ def case_update(dim, shape):
     s = f"_{dim}d"
     fails = []
     states = trans = 0
-    upd = getattr(spne, f"gen_update_vorticity_from_velocity_forcing_pyst_kernel{s}")(real_t=R)
-    pen = getattr(spne, f"gen_update_vorticity_from_penalised_velocity_pyst_kernel{s}")(real_t=R)
-    if dim == 2:
-        curl = spne.gen_inplane_field_curl_pyst_kernel_2d(real_t=R)
-    else:
-        curl = spne.gen_curl_pyst_kernel_3d(real_t=R, reset_ghost_zone=False)
+    # generation history: every generator is called three times in this process and the LAST kernel is the one under
+    # test (a generator must not remember how often it was called)
+    for _ in range(3):
+        upd = getattr(spne, f"gen_update_vorticity_from_velocity_forcing_pyst_kernel{s}")(real_t=R)
+        pen = getattr(spne, f"gen_update_vorticity_from_penalised_velocity_pyst_kernel{s}")(real_t=R)
+        if dim == 2:
+            curl = spne.gen_inplane_field_curl_pyst_kernel_2d(real_t=R)
+        else:
+            curl = spne.gen_curl_pyst_kernel_3d(real_t=R, reset_ghost_zone=False)
     p = Fraction(5, 11)
     inner = tuple(slice(1, n - 1) for n in shape)
     wshape = shape if dim == 2 else (3, *shape)
